@@ -36,6 +36,8 @@ from .space import (
     Spec,
     State,
     ref_selected,
+    ref_selected_path,
+    index_specs,
     regenerate_specs,
     retdiff_tags,
     trace_hash,
@@ -73,7 +75,8 @@ def traces_equal(t1, t2) -> bool:
 
 
 class Explorer:
-    def __init__(self, ctx, node: Node, tier: str, seed: int, props: set, kinds=("update", "regenerate"), bounds=None):
+    def __init__(self, ctx, node: Node, tier: str, seed: int, props: set, kinds=("update", "regenerate"), bounds=None, static_args=False, all_arg_changes=False, weight_always=False, alphabet=None):
+        self.all_arg_changes, self.weight_always = all_arg_changes, weight_always
         self.ctx, self.node, self.tier, self.seed, self.props = ctx, node, tier, seed, set(props)
         self.kinds = kinds
         self.b = dict(BOUNDS[tier])
@@ -85,9 +88,9 @@ class Explorer:
             self.b["init_cap"] = 4
         self.prog = Prog(node, n_cont=2)
         self.key = base_key(seed)
-        alph = rotate(node.arg_alphabet(), seed)[: self.b["args"]]
+        alph = rotate(node.arg_alphabet(), seed)[: self.b["args"]] if alphabet is None else list(alphabet)
         self.alph = alph
-        self.space = Space(self.prog, self.key, alph)
+        self.space = Space(self.prog, self.key, alph, static_args=static_args)
         gf = self.prog.gf
         self._own_assess = jax.jit(lambda tr: gf.assess(tr.get_choices(), tr.get_args()))
 
@@ -98,7 +101,7 @@ class Explorer:
     def fail(self, prop, op, input_class, symptom, detail):
         if prop in self.props:
             # the ctx's property is the module's; only report oracles of that property
-            self.ctx.fail(self.component(), op, input_class, symptom, dict(program=self.node.name, **detail))
+            self.ctx.fail(self.component(), op, input_class, symptom, {**dict(detail), "program": self.node.name})
 
     def hist(self, state, spec=None):
         h = list(state.history)
@@ -112,7 +115,10 @@ class Explorer:
         ctx = self.ctx
         if "C01" in self.props:
             # library's own assess on the trace's own choices
-            feats = sorted(node.features() & {"zero_length", "mask_concrete_false"})
+            fs = set(node.features() & {"zero_length", "mask_concrete_false"})
+            if self.space.static_args and node.kind == "mask" and state.args and state.args[0] is False:
+                fs.add("mask_concrete_false")
+            feats = sorted(fs)
             oa = "own_assess" + "".join(":" + f for f in feats)
             try:
                 s, r = self._own_assess(state.trace)
@@ -177,9 +183,11 @@ class Explorer:
     def specs_for(self, st: State):
         specs = []
         if "update" in self.kinds:
-            specs += update_specs(self.node, st, self.alph, self.tier)
+            specs += update_specs(self.node, st, self.alph, self.tier, all_arg_changes=self.all_arg_changes)
         if "regenerate" in self.kinds:
             specs += regenerate_specs(self.node, self.space.universe, self.tier)
+        if "index" in self.kinds:
+            specs += index_specs(self.node, st, self.tier)
         return specs
 
     # ---------------------------------------------------------------- one transition
@@ -188,6 +196,8 @@ class Explorer:
         op = spec.kind
         supported = True
         if op == "regenerate" and not node.regen_ok:
+            supported = False
+        if op == "index" and node.kind not in ("vmap", "scan", "repeat"):
             supported = False
         try:
             results, new_args = space.apply(st, spec)
@@ -222,15 +232,15 @@ class Explorer:
             ctx.outcome(asg_key(ns.asg))
             new_ref_score, new_ref_ret, new_R = _ref_score(node, new_args, ns.asg)
             w = float(np.asarray(res["weight"]))
-            if op == "update":
+            if op == "update" or (op == "index" and spec.inner.kind == "update"):
                 self.oracle_update(st, spec, res, ns, w, old_ref_score, new_ref_score, new_R)
-            if op == "regenerate":
+            if op == "regenerate" or (op == "index" and spec.inner.kind == "regenerate"):
                 self.oracle_regenerate(st, spec, res, ns, w, old_ref_score, new_ref_score, new_R)
             if "C08" in self.props:
                 self.oracle_retdiff(st, spec, res, ns)
             if "C06" in self.props:
                 self.oracle_bwd(st, spec, res, ns, w)
-        if op == "regenerate" and "C07" in self.props and results:
+        if (op == "regenerate" or (op == "index" and spec.inner.kind == "regenerate")) and "C07" in self.props and results:
             self.oracle_regen_distribution(st, spec, results, new_args)
         if "C08" in self.props and op == "update" and spec.new_args is None:
             self.oracle_retag(st, spec, results)
@@ -240,9 +250,9 @@ class Explorer:
 
     def fail_any(self, op, input_class, symptom, detail):
         # an exception inside the documented domain violates the property that specifies the request
-        owner = {"update": "C05", "regenerate": "C07"}.get(op)
+        owner = {"update": "C05", "regenerate": "C07", "index": "C05"}.get(op)
         if owner in self.props:
-            self.ctx.fail(self.component(), op, input_class, symptom, dict(program=self.node.name, **detail))
+            self.ctx.fail(self.component(), op, input_class, symptom, {**dict(detail), "program": self.node.name})
         else:
             self.ctx.note(f"edit_raised_{op}")
 
@@ -293,7 +303,7 @@ class Explorer:
         _, new_ret, _ = _ref_score(node, ns.args, ns.asg)
         if not cmp_ret(ns.retval, new_ret):
             self.fail("C05", "update", lab, "retval", dict(history=h, impl=repr(ns.retval), ref=repr(new_ret)))
-        if not fresh and not may_resample and old_ref is not None:
+        if (not fresh or self.weight_always) and not may_resample and old_ref is not None:
             if not close(w, new_ref - old_ref):
                 self.fail("C05", "update", lab, "weight", dict(history=h, impl=w, ref=new_ref - old_ref))
         else:
@@ -311,19 +321,19 @@ class Explorer:
         h = self.hist(st, spec)
         sel = spec.selection
         for p_, v in st.asg.items():
-            if not ref_selected(sel, static_part(p_)):
+            if not ref_selected_path(sel, p_):
                 if p_ not in ns.asg or not _val_eq(ns.asg[p_], v):
-                    self.fail("C07", "regenerate", repr(sel[0]), "unselected_changed", dict(history=h, path=repr(p_), was=v, now=ns.asg.get(p_)))
+                    self.fail("C07", spec.kind, repr(sel[0]), "unselected_changed", dict(history=h, path=repr(p_), was=v, now=ns.asg.get(p_)))
         if new_ref is None:
-            self.fail("C07", "regenerate", repr(sel[0]), "choices:missing_address", dict(history=h))
+            self.fail("C07", spec.kind, repr(sel[0]), "choices:missing_address", dict(history=h))
             return
         if not close(ns.score, new_ref):
-            self.fail("C07", "regenerate", repr(sel[0]), "score", dict(history=h, impl=ns.score, ref=new_ref))
+            self.fail("C07", spec.kind, repr(sel[0]), "score", dict(history=h, impl=ns.score, ref=new_ref))
         if old_ref is not None and not close(w, new_ref - old_ref):
-            self.fail("C07", "regenerate", repr(sel[0]), "weight", dict(history=h, impl=w, ref=new_ref - old_ref))
-        if sel == ("none",) and spec.new_args is None:
+            self.fail("C07", spec.kind, repr(sel[0]), "weight", dict(history=h, impl=w, ref=new_ref - old_ref))
+        if sel in (("none",),) and spec.new_args is None:
             if abs(w) > 1e-6 or not traces_equal(ns.trace, st.trace):
-                self.fail("C07", "regenerate", "none", "not_identity", dict(history=h, weight=w))
+                self.fail("C07", spec.kind, "none", "not_identity", dict(history=h, weight=w))
 
     def oracle_regen_distribution(self, st, spec, results, new_args):
         """P(path) must equal the reference prior of the selected choices given current parents."""
@@ -339,13 +349,13 @@ class Explorer:
                 ret, R = ref_run(node, new_args, asg)
             except Missing:
                 continue
-            lp = sum(t[1] for t in R.terms if ref_selected(sel, static_part(t[0])))
+            lp = sum(t[1] for t in R.terms if ref_selected_path(sel, t[0]))
             exp[k] = math.exp(lp)
         if not node.discrete:
             return
         bad = [(k, mass[k], exp.get(k)) for k in mass if k in exp and abs(mass[k] - exp[k]) > 1e-5]
         if bad:
-            self.fail("C07", "regenerate", repr(sel[0]), "resample_distribution", dict(history=self.hist(st, spec), first=bad[:3]))
+            self.fail("C07", spec.kind, repr(sel[0]), "resample_distribution", dict(history=self.hist(st, spec), first=bad[:3]))
 
     def oracle_retdiff(self, st, spec, res, ns):
         h = self.hist(st, spec)
